@@ -39,4 +39,368 @@ theorem writeNpy_eq_ok (shape bits bytes : List Nat) (hw : writeNpy shape bits =
     exact ⟨hd, hh, rfl⟩
   · cases hw
 
+/-! ## the dictionary printed by `npyDict` parses back -/
+
+theorem pDescrEntry_lit (rest : List Char) :
+    pDescrEntry ("'descr': '<f8'".toList ++ rest) = some (.descr .little .f8, rest) := by
+  simp [pDescrEntry, pTargetString, pString, pQuote, pEntrySep, pWsSep, pSpace0, pTag, pDescrValue, pEndian, pType]
+
+theorem pFortranEntry_lit (rest : List Char) :
+    pFortranEntry ("'fortran_order': False".toList ++ rest) = some (.fortran false, rest) := by
+  simp [pFortranEntry, pTargetString, pString, pQuote, pEntrySep, pWsSep, pSpace0, pTag, pBool]
+
+theorem pDescrEntry_fortran (rest : List Char) :
+    pDescrEntry ("'fortran_order'".toList ++ rest) = none := by
+  simp [pDescrEntry, pTargetString, pString, pQuote]
+
+theorem pDescrEntry_shape (rest : List Char) :
+    pDescrEntry ("'shape'".toList ++ rest) = none := by
+  simp [pDescrEntry, pTargetString, pString, pQuote]
+
+theorem pFortranEntry_shape (rest : List Char) :
+    pFortranEntry ("'shape'".toList ++ rest) = none := by
+  simp [pFortranEntry, pTargetString, pString, pQuote]
+
+
+theorem pSepList1Opt_fail {α} (sep : P Unit) (f : P α) (fuel : Nat) (inp : List Char) (h : f inp = none) :
+    pSepList1Opt sep f fuel inp = none := by
+  cases fuel with
+  | zero => rfl
+  | succ n => simp [pSepList1Opt, h]
+
+/-- the separator `", "` in front of something that does not start with a blank. -/
+theorem pWsSep_comma_space (x : List Char) (hx : ∀ c, x.head? = some c → c ≠ ' ' ∧ c ≠ '\t') :
+    pWsSep [','] (", ".toList ++ x) = some ((), x) := by
+  cases x with
+  | nil => simp [pWsSep, pSpace0, pTag]
+  | cons c t =>
+    have := hx c rfl
+    simp [pWsSep, pSpace0, pTag, this.1, this.2]
+
+theorem pWsSep_comma (x : List Char) (hx : ∀ c, x.head? = some c → c ≠ ' ' ∧ c ≠ '\t') :
+    pWsSep [','] (',' :: x) = some ((), x) := by
+  cases x with
+  | nil => simp [pWsSep, pSpace0, pTag]
+  | cons c t =>
+    have := hx c rfl
+    simp [pWsSep, pSpace0, pTag, this.1, this.2]
+
+theorem npy_joinNats_cons_cons (sep : List Char) (a b : Nat) (r : List Nat) :
+    joinNats sep (a :: b :: r) = showNat a ++ sep ++ joinNats sep (b :: r) := rfl
+
+theorem npy_joinNats_head (sep : List Char) (s : List Nat) (hne : s ≠ []) :
+    ∃ c t, joinNats sep s = c :: t ∧ c.isDigit = true := by
+  match s, hne with
+  | [a], _ =>
+    obtain ⟨c, t, h, hc⟩ := showNat_head a
+    exact ⟨c, t, by simpa [joinNats] using h, hc⟩
+  | a :: b :: r, _ =>
+    obtain ⟨c, t, h, hc⟩ := showNat_head a
+    exact ⟨c, _, by rw [npy_joinNats_cons_cons, h]; rfl, hc⟩
+
+theorem joinNats_length_ge (sep : List Char) : ∀ (s : List Nat), s.length ≤ (joinNats sep s).length
+  | [] => by simp [joinNats]
+  | [a] => by
+    obtain ⟨c, t, h, _⟩ := showNat_head a
+    simp [joinNats, h]
+  | a :: b :: r => by
+    obtain ⟨c, t, h, _⟩ := showNat_head a
+    have := joinNats_length_ge sep (b :: r)
+    rw [npy_joinNats_cons_cons, h]
+    simp only [List.length_append, List.length_cons] at *
+    omega
+
+theorem isDigit_not_blank {c : Char} (h : c.isDigit = true) : c ≠ ' ' ∧ c ≠ '\t' := by
+  constructor <;> (rintro rfl; revert h; decide)
+
+/-- the shape tuple body `d1, d2, …, dn,` followed by `)`. -/
+theorem pShapeList (tail : List Char) : ∀ (shape : List Nat) (fuel : Nat), shape ≠ [] → (∀ v ∈ shape, v < 2 ^ 64) →
+    shape.length ≤ fuel →
+    pSepList1Opt (pWsSep [',']) pU64 fuel (joinNats ", ".toList shape ++ ',' :: ')' :: tail) = some (shape, ')' :: tail)
+  | [a], fuel, _, hb, hf => by
+    obtain ⟨f, rfl⟩ : ∃ f, fuel = f + 1 := ⟨fuel - 1, by simp at hf; omega⟩
+    have h1 : pU64 (showNat a ++ ',' :: ')' :: tail) = some (a, ',' :: ')' :: tail) :=
+      pU64_showNat a _ (hb a (by simp)) (by simp)
+    have h2 : pWsSep [','] (',' :: ')' :: tail) = some ((), ')' :: tail) :=
+      pWsSep_comma _ (by simp)
+    have h3 : pSepList1Opt (pWsSep [',']) pU64 f (')' :: tail) = none :=
+      pSepList1Opt_fail _ _ _ _ (pU64_nondigit _ (by simp))
+    simp only [joinNats, pSepList1Opt, h1, h2, h3]
+  | a :: b :: r, fuel, _, hb, hf => by
+    obtain ⟨f, rfl⟩ : ∃ f, fuel = f + 1 := ⟨fuel - 1, by simp at hf; omega⟩
+    have ih := pShapeList tail (b :: r) f (by simp) (fun v hv => hb v (by simp [hv])) (by simp at hf ⊢; omega)
+    obtain ⟨c, t, hj, hc⟩ := npy_joinNats_head ", ".toList (b :: r) (by simp)
+    have h1 : pU64 (showNat a ++ (", ".toList ++ (joinNats ", ".toList (b :: r) ++ ',' :: ')' :: tail)))
+        = some (a, ", ".toList ++ (joinNats ", ".toList (b :: r) ++ ',' :: ')' :: tail)) :=
+      pU64_showNat a _ (hb a (by simp)) (by simp)
+    have h2 : pWsSep [','] (", ".toList ++ (joinNats ", ".toList (b :: r) ++ ',' :: ')' :: tail))
+        = some ((), joinNats ", ".toList (b :: r) ++ ',' :: ')' :: tail) :=
+      pWsSep_comma_space _ (by rw [hj]; intro c' hc'; simp at hc'; subst hc'; exact isDigit_not_blank hc)
+    rw [npy_joinNats_cons_cons, List.append_assoc, List.append_assoc]
+    simp only [pSepList1Opt, h1, h2, ih]
+
+
+theorem pShape_lit (shape : List Nat) (tail : List Char) (hne : shape ≠ []) (hb : ∀ v ∈ shape, v < 2 ^ 64) :
+    pShape ('(' :: (joinNats ", ".toList shape ++ ',' :: ')' :: tail)) = some (shape, tail) := by
+  have hlen : shape.length ≤ (joinNats ", ".toList shape ++ ',' :: ')' :: tail).length + 1 := by
+    have := joinNats_length_ge ", ".toList shape
+    simp only [List.length_append]; omega
+  have h := pShapeList tail shape _ hne hb hlen
+  generalize joinNats ", ".toList shape ++ ',' :: ')' :: tail = X at h
+  simp [pShape, pTag, h]
+
+theorem pShapeEntry_lit (shape : List Nat) (tail : List Char) (hne : shape ≠ []) (hb : ∀ v ∈ shape, v < 2 ^ 64) :
+    pShapeEntry ("'shape': (".toList ++ (joinNats ", ".toList shape ++ ',' :: ')' :: tail)) = some (.shape shape, tail) := by
+  have h := pShape_lit shape tail hne hb
+  generalize joinNats ", ".toList shape ++ ',' :: ')' :: tail = X at h
+  simp [pShapeEntry, pTargetString, pString, pQuote, pEntrySep, pWsSep, pSpace0, pTag, h]
+
+theorem pEntry_descr (rest : List Char) :
+    pEntry ("'descr': '<f8'".toList ++ rest) = some (.descr .little .f8, rest) := by
+  simp only [pEntry, pDescrEntry_lit]
+
+theorem pEntry_fortran (rest : List Char) :
+    pEntry ("'fortran_order': False".toList ++ rest) = some (.fortran false, rest) := by
+  have h : pDescrEntry ("'fortran_order': False".toList ++ rest) = none := pDescrEntry_fortran (": False".toList ++ rest)
+  simp only [pEntry, h, pFortranEntry_lit]
+
+theorem pEntry_shape (shape : List Nat) (tail : List Char) (hne : shape ≠ []) (hb : ∀ v ∈ shape, v < 2 ^ 64) :
+    pEntry ("'shape': (".toList ++ (joinNats ", ".toList shape ++ ',' :: ')' :: tail)) = some (.shape shape, tail) := by
+  have h1 : pDescrEntry ("'shape': (".toList ++ (joinNats ", ".toList shape ++ ',' :: ')' :: tail)) = none :=
+    pDescrEntry_shape (": (".toList ++ _)
+  have h2 : pFortranEntry ("'shape': (".toList ++ (joinNats ", ".toList shape ++ ',' :: ')' :: tail)) = none :=
+    pFortranEntry_shape (": (".toList ++ _)
+  simp only [pEntry, h1, h2, pShapeEntry_lit shape tail hne hb]
+
+theorem pEntry_brace (rest : List Char) : pEntry ('}' :: rest) = none := by
+  simp [pEntry, pDescrEntry, pFortranEntry, pShapeEntry, pTargetString, pString, pQuote]
+
+/-- the three entries of the dictionary the writer prints, for any sufficient fuel. -/
+theorem pEntries_lit (shape : List Nat) (tail : List Char) (hne : shape ≠ []) (hb : ∀ v ∈ shape, v < 2 ^ 64) (f : Nat) :
+    pSepList1Opt (pWsSep [',']) pEntry (f + 3)
+      ("'descr': '<f8'".toList ++ (", ".toList ++ ("'fortran_order': False".toList ++ (", ".toList ++
+        ("'shape': (".toList ++ (joinNats ", ".toList shape ++ ',' :: ')' :: (", ".toList ++ '}' :: tail)))))))
+      = some ([.descr .little .f8, .fortran false, .shape shape], '}' :: tail) := by
+  have h4 : pSepList1Opt (pWsSep [',']) pEntry f ('}' :: tail) = none :=
+    pSepList1Opt_fail _ _ _ _ (pEntry_brace tail)
+  have s3 : pWsSep [','] (", ".toList ++ '}' :: tail) = some ((), '}' :: tail) := pWsSep_comma_space _ (by simp)
+  have e3 := pEntry_shape shape (", ".toList ++ '}' :: tail) hne hb
+  have s2 : ∀ R, pWsSep [','] (", ".toList ++ ("'shape': (".toList ++ R)) = some ((), "'shape': (".toList ++ R) :=
+    fun R => pWsSep_comma_space _ (by simp)
+  have s1 : ∀ R, pWsSep [','] (", ".toList ++ ("'fortran_order': False".toList ++ R))
+      = some ((), "'fortran_order': False".toList ++ R) :=
+    fun R => pWsSep_comma_space _ (by simp)
+  simp only [pSepList1Opt, pEntry_descr, s1, pEntry_fortran, s2, e3, s3, h4]
+
+theorem npyDict_lit1 : "{'descr': '<f8', 'fortran_order': False, 'shape': (".toList =
+   '{' :: ("'descr': '<f8'".toList ++ (", ".toList ++ ("'fortran_order': False".toList ++ (", ".toList ++ "'shape': (".toList)))) := by
+  simp
+
+theorem npyDict_lit2 : ",), }".toList = ',' :: ')' :: (", ".toList ++ ['}']) := by simp
+
+theorem npyDict_eq (shape : List Nat) (tail : List Char) :
+    npyDict shape ++ tail = '{' :: ("'descr': '<f8'".toList ++ (", ".toList ++ ("'fortran_order': False".toList ++ (", ".toList ++
+        ("'shape': (".toList ++ (joinNats ", ".toList shape ++ ',' :: ')' :: (", ".toList ++ '}' :: tail))))))) := by
+  unfold npyDict
+  rw [npyDict_lit1, npyDict_lit2]
+  simp only [List.append_assoc, List.cons_append, List.nil_append]
+
+theorem pDict_npyDict (shape : List Nat) (tail : List Char) (hne : shape ≠ []) (hb : ∀ v ∈ shape, v < 2 ^ 64) :
+    pDict (npyDict shape ++ tail) = some ([.descr .little .f8, .fortran false, .shape shape], tail) := by
+  rw [npyDict_eq]
+  generalize hX : "'descr': '<f8'".toList ++ (", ".toList ++ ("'fortran_order': False".toList ++ (", ".toList ++
+        ("'shape': (".toList ++ (joinNats ", ".toList shape ++ ',' :: ')' :: (", ".toList ++ '}' :: tail)))))) = X
+  have hsp : pSpace0 X = some ((), X) := by subst hX; simp [pSpace0]
+  obtain ⟨f, hf⟩ : ∃ f, X.length + 1 = f + 3 := ⟨X.length - 2, by subst hX; simp⟩
+  have he := pEntries_lit shape tail hne hb f
+  rw [hX] at he
+  have ht : pTag ['{'] ('{' :: X) = some ((), X) := by simp [pTag]
+  have hsp2 : pSpace0 ('}' :: tail) = some ((), '}' :: tail) := by simp [pSpace0]
+  have ht2 : pTag ['}'] ('}' :: tail) = some ((), tail) := by simp [pTag]
+  simp only [pDict, ht, hsp, hf, he, hsp2, ht2]
+
+/-- generalized `writer_dict_parses`: whatever follows the closing brace is ignored. -/
+theorem parseNpyDict_npyDict (shape : List Nat) (tail : List Char) (hne : shape ≠ []) (hb : ∀ v ∈ shape, v < 2 ^ 64) :
+    parseNpyDict (npyDict shape ++ tail) = some ⟨.little, .f8, false, shape⟩ := by
+  simp only [parseNpyDict, pDict_npyDict shape tail hne hb, List.foldl]
+
+
+/-! ## header layout -/
+
+theorem flatten_leBytes8_length (bits : List Nat) : ((bits.map (leBytes 8)).flatten).length = 8 * bits.length := by
+  induction bits with
+  | nil => rfl
+  | cons b bs ih => simp only [List.map_cons, List.flatten_cons, List.length_append, leBytes_length, ih, List.length_cons]; omega
+
+theorem npyHeader_layout (shape hd : List Nat) (hh : npyHeader shape = some hd) :
+    ∃ L pad, hd = npyMagic ++ [1, 0] ++ leBytes 2 L ++ asciiBytes (npyDict shape) ++ List.replicate pad 32 ++ [10] ∧
+      L = (npyDict shape).length + pad + 1 ∧ (10 + L) % 64 = 0 ∧ pad < 64 ∧ L < 65536 := by
+  unfold npyHeader at hh
+  simp only at hh
+  split at hh
+  · rename_i hlt
+    cases hh
+    refine ⟨_, _, rfl, ?_, ?_, ?_, hlt⟩ <;> omega
+  · cases hh
+
+theorem npyHeader_none_iff (shape : List Nat) :
+    npyHeader shape = none ↔ 65536 ≤ (npyDict shape).length + (64 - (10 + (npyDict shape).length) % 64) := by
+  unfold npyHeader
+  simp only
+  split
+  · rename_i h; constructor
+    · intro h'; cases h'
+    · intro h'; omega
+  · rename_i h; constructor
+    · intro _; omega
+    · intro _; rfl
+
+/-! ## reader: walking the header -/
+
+/-- `readNpy` on a file whose v1.0 header (length field `L`, `L` header bytes) is intact. -/
+theorem readNpy_header (L : Nat) (dictBytes body : List Nat) (hL : L < 65536) (hlen : dictBytes.length = L) :
+    readNpy (npyMagic ++ [1, 0] ++ leBytes 2 L ++ dictBytes ++ body) =
+      if !allAscii dictBytes then .error .invalid
+      else match parseNpyDict (bytesToChars dictBytes) with
+        | none => .error .invalid
+        | some d =>
+          if d.fortran then .error .invalid
+          else match readValues d.endian d.ty (body.length + 1) body with
+            | .error e => .error e
+            | .ok vals => if checkedSize d.shape = some vals.length then .ok (d.shape, vals) else .error .invalid := by
+  obtain ⟨b0, b1, hb⟩ : ∃ b0 b1, leBytes 2 L = [b0, b1] := ⟨_, _, rfl⟩
+  have hof : ofLeBytes [b0, b1] = L := by rw [← hb]; exact ofLeBytes_leBytes2 L hL
+  have h1 : ¬ (dictBytes ++ body).length < L := by simp [hlen]
+  have h2 : List.take L (dictBytes ++ body) = dictBytes := List.take_left' hlen
+  have h3 : List.drop L (dictBytes ++ body) = body := List.drop_left' hlen
+  have h4 : ¬ (dictBytes ++ body).length + 1 + 1 + 1 + 1 + 1 + 1 + 1 + 1 + 1 + 1 < 6 := by omega
+  have h5 : ¬ (dictBytes ++ body).length + 1 + 1 + 1 + 1 < 2 := by omega
+  have h6 : ¬ (dictBytes ++ body).length + 1 + 1 < 2 := by omega
+  simp only [readNpy, hb, npyMagic, List.cons_append, List.nil_append, List.length_cons,
+    List.take_succ_cons, List.take_zero, List.drop_succ_cons, List.drop_zero, List.getD_cons_zero, hof,
+    h1, h2, h3, h4, h5, h6, if_false, ne_eq, not_true_eq_false]
+  rfl
+
+/-- the file ends inside the header bytes announced by the length field. -/
+theorem readNpy_short_header (L : Nat) (t : List Nat) (hL : L < 65536) (hlen : t.length < L) :
+    readNpy (npyMagic ++ [1, 0] ++ leBytes 2 L ++ t) = .error .eof := by
+  obtain ⟨b0, b1, hb⟩ : ∃ b0 b1, leBytes 2 L = [b0, b1] := ⟨_, _, rfl⟩
+  have hof : ofLeBytes [b0, b1] = L := by rw [← hb]; exact ofLeBytes_leBytes2 L hL
+  have h4 : ¬ t.length + 1 + 1 + 1 + 1 + 1 + 1 + 1 + 1 + 1 + 1 < 6 := by omega
+  have h5 : ¬ t.length + 1 + 1 + 1 + 1 < 2 := by omega
+  have h6 : ¬ t.length + 1 + 1 < 2 := by omega
+  simp only [readNpy, hb, npyMagic, List.cons_append, List.nil_append, List.length_cons,
+    List.take_succ_cons, List.take_zero, List.drop_succ_cons, List.drop_zero, List.getD_cons_zero, hof,
+    hlen, h4, h5, h6, if_false, if_true, ne_eq, not_true_eq_false]
+
+/-- fewer than 10 bytes never form a header. -/
+theorem readNpy_lt10 (b : List Nat) (h : b.length < 10) : ∃ e, readNpy b = .error e := by
+  unfold readNpy
+  simp only
+  split
+  · exact ⟨_, rfl⟩
+  split
+  · exact ⟨_, rfl⟩
+  split
+  · exact ⟨_, rfl⟩
+  split
+  · exact ⟨_, rfl⟩
+  · rename_i w hw
+    have hw2 : 2 ≤ w := by
+      split at hw <;> first | (cases hw; omega) | cases hw
+    have : ((List.drop 6 b).drop 2).length < w := by simp only [List.length_drop]; omega
+    simp only [this, if_true]
+    exact ⟨_, rfl⟩
+
+/-! ## reader: the value loop for `<f8` -/
+
+theorem readValues_le_f8_flatten : ∀ (bits : List Nat) (fuel : Nat), (∀ b ∈ bits, b < 2 ^ 64) → bits.length ≤ fuel →
+    readValues .little .f8 fuel ((bits.map (leBytes 8)).flatten) = .ok bits
+  | [], fuel, _, _ => by cases fuel <;> simp [readValues]
+  | b :: bs, fuel, hb, hf => by
+    obtain ⟨f, rfl⟩ : ∃ f, fuel = f + 1 := ⟨fuel - 1, by simp at hf; omega⟩
+    have ih := readValues_le_f8_flatten bs f (fun x hx => hb x (by simp [hx])) (by simp at hf; omega)
+    have h8 : (leBytes 8 b).length = 8 := leBytes_length 8 b
+    have hne : (leBytes 8 b ++ (bs.map (leBytes 8)).flatten).isEmpty = false := by
+      cases h : leBytes 8 b with
+      | nil => rw [h] at h8; cases h8
+      | cons _ _ => rfl
+    have hl : ¬ (leBytes 8 b ++ (bs.map (leBytes 8)).flatten).length < 8 := by
+      simp only [List.length_append, h8]; omega
+    simp only [List.map_cons, List.flatten_cons, readValues, NpyTy.width, hne, hl, if_false, Bool.false_eq_true,
+      List.drop_left' h8, List.take_left' h8, ih, decodeValue, ofLeBytes_leBytes8 b (hb b (by simp))]
+
+/-- the value loop on any body: a whole number of 8-byte values, or `UnexpectedEof`. -/
+theorem readValues_f8_len (en : Endian) : ∀ (fuel : Nat) (body : List Nat), body.length < fuel →
+    (body.length % 8 = 0 → ∃ vals, readValues en .f8 fuel body = .ok vals ∧ vals.length = body.length / 8) ∧
+    (body.length % 8 ≠ 0 → readValues en .f8 fuel body = .error .eof)
+  | 0, _, h => by omega
+  | fuel + 1, body, h => by
+    by_cases he : body = []
+    · subst he; simp [readValues]
+    · have hne : body.isEmpty = false := by cases body <;> simp_all
+      have hpos : 0 < body.length := by cases body <;> simp_all
+      by_cases hl : body.length < 8
+      · constructor
+        · intro h0; omega
+        · intro _; simp only [readValues, hne, NpyTy.width, hl, if_true, Bool.false_eq_true, if_false]
+      · have ih := readValues_f8_len en fuel (body.drop 8) (by simp only [List.length_drop]; omega)
+        have hd : (body.drop 8).length = body.length - 8 := List.length_drop
+        rw [hd] at ih
+        constructor
+        · intro h0
+          obtain ⟨vals, hv, hvl⟩ := ih.1 (by omega)
+          refine ⟨decodeValue en .f8 (body.take 8) :: vals, ?_, ?_⟩
+          · simp only [readValues, hne, NpyTy.width, hl, if_false, Bool.false_eq_true, hv]
+          · simp only [List.length_cons, hvl]; omega
+        · intro h0
+          have hv := ih.2 (by omega)
+          simp only [readValues, hne, NpyTy.width, hl, if_false, Bool.false_eq_true, hv]
+
+
+/-! ## the written header read back -/
+
+theorem joinNats_mem (sep : List Char) : ∀ (s : List Nat) (c : Char), c ∈ joinNats sep s → c.isDigit = true ∨ c ∈ sep
+  | [], c, h => by simp [joinNats] at h
+  | [a], c, h => Or.inl (showNat_isDigit a c (by simpa [joinNats] using h))
+  | a :: b :: r, c, h => by
+    rw [npy_joinNats_cons_cons] at h
+    simp only [List.mem_append] at h
+    rcases h with (h | h) | h
+    · exact Or.inl (showNat_isDigit a c h)
+    · exact Or.inr h
+    · exact joinNats_mem sep (b :: r) c h
+
+theorem npyDict_ascii (shape : List Nat) : ∀ c ∈ npyDict shape, c.toNat < 128 := by
+  intro c hc
+  unfold npyDict at hc
+  simp only [List.mem_append] at hc
+  rcases hc with (hc | hc) | hc
+  · revert c; decide
+  · rcases joinNats_mem _ _ _ hc with h | h
+    · exact isDigit_lt128 h
+    · clear hc; revert c; decide
+  · revert c; decide
+
+/-- `readNpy` on the header the writer emits followed by any `body`: only the value loop and the size check remain. -/
+theorem readNpy_written (shape : List Nat) (hne : shape ≠ []) (hb : ∀ v ∈ shape, v < 2 ^ 64) (L pad : Nat)
+    (hL : L = (npyDict shape).length + pad + 1) (hlt : L < 65536) (body : List Nat) :
+    readNpy (npyMagic ++ [1, 0] ++ leBytes 2 L ++ asciiBytes (npyDict shape) ++ List.replicate pad 32 ++ [10] ++ body) =
+      match readValues .little .f8 (body.length + 1) body with
+      | .error e => .error e
+      | .ok vals => if checkedSize shape = some vals.length then .ok (shape, vals) else .error .invalid := by
+  have hlen : (asciiBytes (npyDict shape) ++ (List.replicate pad 32 ++ [10])).length = L := by
+    simp only [List.length_append, asciiBytes_length, List.length_replicate, List.length_cons, List.length_nil]; omega
+  have hasc : allAscii (asciiBytes (npyDict shape) ++ (List.replicate pad 32 ++ [10])) = true := by
+    rw [allAscii_append, allAscii_asciiBytes _ (npyDict_ascii shape)]
+    simp [allAscii]
+  have hparse : parseNpyDict (bytesToChars (asciiBytes (npyDict shape) ++ (List.replicate pad 32 ++ [10])))
+      = some ⟨.little, .f8, false, shape⟩ := by
+    rw [bytesToChars_append, bytesToChars_asciiBytes]
+    exact parseNpyDict_npyDict shape _ hne hb
+  have h := readNpy_header L _ body hlt hlen
+  simp only [List.append_assoc] at h ⊢
+  rw [h]
+  simp only [hasc, hparse, Bool.not_true, Bool.false_eq_true, if_false]
+
 end Sfs
